@@ -87,7 +87,7 @@ func (s *SymbolTable) Pop() *SymbolTable {
 	if s.outer == nil {
 		return s
 	}
-	s.outer.nestedMaxIndex = max(s.outer.nestedMaxIndex, s.nestedMaxIndex+s.index)
+	s.outer.nestedMaxIndex = max(s.outer.nestedMaxIndex, s.nestedMaxIndex, s.index)
 	return s.outer
 }
 
